@@ -54,6 +54,7 @@ def scripts(draw, tier):
         c["ds"] = draw(st.lists(st.sampled_from([0.0, 0.1, 0.5, 1.0, 2.0]), min_size=L, max_size=L))
     c["criterion_arg"] = "default" if (crit == "relative" and draw(st.booleans())) else "explicit"    # 'relative' is the documented default
     c["rounds"] = draw(st.sampled_from([1, 1, 2]))      # a second fit() re-using the same evaluator and stopper (epoch numbers restart)
+    c["clear_between"] = draw(st.booleans())           # ... with or without evaluator.clear_history() in between
     return c
 
 
@@ -77,17 +78,19 @@ def recorded_value(c, i):
     return (mean.item(), var.item())
 
 
-def reference(c, E, L=None):
+def reference(c, E, L=None, counter=None):
     """-> (stop_epoch or None, cut_epoch or None): decision procedure on the scripted sequence.
     L = evaluations recorded in earlier rounds (the history is kept in call order across fit() calls)."""
     L = [] if L is None else L
+    counter = [len(L)] if counter is None else counter       # index into the script = evaluations made so far (survives clear_history)
     p, tol = c["patience"], c["tol"]
     for e in range(1, E + 1):
         if e % c["pe"] == 0:
-            i = len(L)
+            i = counter[0]
             if i >= len(c["vals"]):
                 return None, e          # script exhausted: cut here
             L.append(recorded_value(c, i))
+            counter[0] += 1
         if e % c["ps"] == 0 and len(L) >= p + 1:
             a, va = L[-1 - p]
             b, _ = L[-1]
@@ -105,23 +108,24 @@ def plan_rounds(c):
     nr = c.get("rounds", 1)
     Ltot = len(c["vals"])
     lens = [Ltot] if nr == 1 else [max(1, Ltot // 2), Ltot - max(1, Ltot // 2)]
-    plan, hist, truncated = [], [], False
+    plan, hist, truncated, done = [], [], False, 0
     for Lr in lens:
         if Lr < 1:
             break
         E = Lr * c["pe"] + (c["pe"] - 1)
-        h = list(hist)
-        stop_e, cut = reference(c, E, h)
+        h, cnt = list(hist), [done]
+        stop_e, cut = reference(c, E, h, cnt)
         if cut is not None:
             truncated = True
             E = cut - 1
             if E < 1:
                 break
-            h = list(hist)
-            stop_e, cut2 = reference(c, E, h)
+            h, cnt = list(hist), [done]
+            stop_e, cut2 = reference(c, E, h, cnt)
             assert cut2 is None
         plan.append((E, stop_e))
-        hist = h
+        done = cnt[0]
+        hist = [] if c.get("clear_between") else h
         if truncated:
             break
     return plan, truncated
@@ -177,6 +181,8 @@ def check(c):
     for ri, (E, stop_e) in enumerate(plan):
         del ends[:]
         state.stop_training = False
+        if ri > 0 and c.get("clear_between"):
+            ev.clear_history()
         before_last = es.last_epoch
         state.fit(data, epochs=E, pos_batch_size=2, lr=0.01, callbacks=[ev, es, rec])
         r = judge_round(c, ri, E, stop_e, ends, es, state, ev, before_last)
